@@ -1,3 +1,6 @@
 import HttpcoreModel.Basic
 import HttpcoreModel.Generated
 import HttpcoreModel.Backoff
+import HttpcoreModel.Url
+import HttpcoreModel.Drv.C19
+import HttpcoreModel.Drv.C20
